@@ -218,15 +218,33 @@ def run_job(job, work, tier):
     ignore = job.get("observe", [])   # obligation classes reported as observations (see DESIGN section 3)
     obs = []
     failed = []
+    undecided = []
     for r in others:
         if r["status"] == "SUCCESS":
+            continue
+        if r["status"] != "FAILURE":
+            # CBMC reports UNKNOWN for obligations it leaves undecided once an undefined-behaviour check failed
+            undecided.append(r)
             continue
         if any(re.search(p, (r["description"] or "")) and (f is None or (r.get("function") or "") == f) for p, f in ignore):
             obs.append(r)
             continue
         failed.append(r)
     jr.observations = obs
+    if job.get("route") == "O":
+        # observation job: the named check classes are switched back on; everything it flags must match the
+        # allowed patterns; nothing from this job is counted as an obligation
+        jr.others = []
+        if failed:
+            jr.msg = "observation job flags something outside the recorded observation classes: " + failed[0]["description"]
+            return jr
+        jr.canary_ok = True
+        jr.status = "ok"
+        return jr
     jr.others = others
+    if undecided and not failed:
+        jr.msg = "%d obligations left undecided by cbmc (status %s), e.g. %s" % (len(undecided), undecided[0]["status"], undecided[0]["description"])
+        return jr
     if not canaries:
         jr.msg = "no canary obligation in harness (vacuity guard missing)"
         return jr
